@@ -315,6 +315,11 @@ func rootTransform(data []byte) []byte {
 
 var familyDone, familyRootDone bool
 
+// allowSkipBuild: buildScenario may return nil (instead of ending the check) when only the overlay export file of
+// the scenario does not compile any more; skippedBuilds counts such batches of the running check.
+var allowSkipBuild bool
+var skippedBuilds int
+
 // ensureFamilyRoot: the same family generated by the ROOT module's generator (built from /repo's working tree) into
 // the root scratch module.
 func ensureFamilyRoot() {
@@ -484,6 +489,14 @@ func buildScenario(b *Batch) *builtBin {
 	}
 	out, err = run(gdir, goEnv, gobin, targs...)
 	if err != nil {
+		if strings.Contains(out, "/overlayfiles/") && strings.Contains(out, "undefined:") && allowSkipBuild {
+			// The in-package export file that gives this scenario access to an unexported name no longer fits the
+			// code (the name is gone: a refactoring of internals, not a broken tree). The scenario cannot be built;
+			// the property's other batches still can.
+			logf("note: scenario %s cannot be built against this tree: its in-package export file names an internal that is gone:\n%s", b.Pkg, firstLines(out, 6))
+			built[key] = nil
+			return nil
+		}
 		die(2, "building scenario %s failed (exit 2: build trouble, not a violation): %v\n%s", b.Pkg, err, out)
 	}
 	logf("built %s in %.1fs", b.Pkg, time.Since(t0).Seconds())
@@ -1043,7 +1056,17 @@ func main() {
 		if only := os.Getenv("VCHECK_ONLY"); only != "" && !strings.Contains(b.Module+":"+b.Scen+":"+b.Cfg+":"+b.Tags, only) {
 			continue // debugging aid: run only the batches whose "module:scenario:cfg" contains the given text
 		}
+		allowSkipBuild = true
 		bb := buildScenario(b)
+		allowSkipBuild = false
+		if bb == nil {
+			ev.foreign = append(ev.foreign, "batch-not-buildable:"+b.Pkg+":"+b.Scen+":"+b.Cfg)
+			skippedBuilds++
+			if skippedBuilds == len(spec.Batches) {
+				die(2, "no batch of %s could be built against this tree (exit 2: build trouble, not a violation)", prop)
+			}
+			continue
+		}
 		runs := b.Quick
 		secs := b.QuickSecs
 		if tier == "thorough" {
